@@ -100,7 +100,9 @@ func c14values(thorough bool) []c14val {
 var c14strings = []string{"", "a", "é", "€€", "\xff", "a\xffb", "aé"}
 var c14stringsThorough = []string{"aa", "aaa", "aaaa", "é", "\U0001F600", "\xe2\x82", "\x00", "ééé", "€€€", "a\n", "\xc0\x80"}
 
-var c14patterns = []string{`^a`, `é`, `(`, ``, `a{2,1}`, `a+$`}
+// the last three are not valid UTF-8 (no operator character in them: a literal-looking pattern is
+// still a regular expression and must be compiled)
+var c14patterns = []string{`^a`, `é`, `(`, ``, `a{2,1}`, `a+$`, "\xff", "a\xffb", "\xc3"}
 var c14patternsThorough = []string{`^.$`, `^..$`, `\xff`, `(?i)A`, `[`, `\`, `^$`, `a|`, `(?s)^.$`}
 
 func c14q(s string) string { return strconv.Quote(s) }
